@@ -15,7 +15,9 @@ SPEC = {
         "the real RuleDependencyCheck.Check run on every entry of generated entry sets (real strict parser, real PromQL parser and "
         "utils.HasVectorSelector, random states, symlink copies, path/rule/syntax errors) vs Model/Dependency.check, byte-exact details text",
         "end to end: `pint ci --json` on scratch git repositories whose branch removes subsets of rules/files with random cross references "
-        "(recording->recording/alert, ALERTS/ALERTS_FOR_STATE{alertname=...} also as second selector, decoy matchers, duplicate providers, several "
+        "(recording->recording/alert, ALERTS/ALERTS_FOR_STATE{alertname=...}; references printed in every PromQL position a selector can take: "
+        "matchers, aggregation arguments and parameters, range/subquery arguments, beneath scalar(), string-taking functions, unary, parens, "
+        "offset/@, either side of binary and set operators; the reference graph is what the generator printed; decoy matchers, duplicate providers, several "
         "files, renames, replacements, unrelated invalid rules (rule-level errors) and PromQL syntax errors in the same files, a file renamed onto "
         "the path of a deleted file of providers) vs the generator's reference graph (implementation-level oracle); this also exercises the "
         "scan.go dispatch and the Removed state of C03",
